@@ -317,6 +317,35 @@ pub fn events_c12(ci: usize, case: &Value) -> Vec<Value> {
                         "enum_sensitive": false, "same_name": false, "other_ok": k1.outcome.status == "ok" && k2.outcome.status == "ok",
                         "same": items_of(&k1.krate, dn) == items_of(&k2.krate, dn)}));
     }
+    // IMPORTS of a value whose governing type is defined in a module the importer does not name for it: the use line of the
+    // value's module may carry that type as well (the constant's type has to be in scope), the other clauses exactly their symbols;
+    // the clause of the value's module comes first, in the middle or last
+    if ci % 4 == 1 {
+        let pos = (ci / 4) % 3;
+        let mut clauses = vec!["Label FROM Mod-C".to_string(), "Flag FROM Mod-D".to_string()];
+        clauses.insert(pos, "default-level FROM Mod-A".to_string());
+        let srcs = vec![
+            "Mod-A DEFINITIONS AUTOMATIC TAGS ::= BEGIN\nLevel ::= INTEGER (0..7)\ndefault-level Level ::= 5\nEND\n".to_string(),
+            format!("Mod-B DEFINITIONS AUTOMATIC TAGS ::= BEGIN\nIMPORTS {};\nItem ::= SEQUENCE {{ label Label, flag Flag OPTIONAL, level INTEGER (0..7) DEFAULT default-level }}\nEND\n", clauses.join(" ")),
+            "Mod-C DEFINITIONS AUTOMATIC TAGS ::= BEGIN\nLabel ::= INTEGER (0..9)\nEND\n".to_string(),
+            "Mod-D DEFINITIONS AUTOMATIC TAGS ::= BEGIN\nFlag ::= BOOLEAN\nEND\n".to_string(),
+        ];
+        let c = compile_hooked(&srcs);
+        let mut observed: Vec<(String, Vec<String>)> = c.krate.module("mod_b").map(|md| md.uses.iter().filter_map(|u| parse_use(u)).collect()).unwrap_or_default();
+        for o in observed.iter_mut() {
+            o.1.sort();
+            // the governing type of the imported value, from the module that defines it
+            if o.0 == "mod_a" {
+                o.1.retain(|x| x != "Level");
+            }
+        }
+        observed.sort();
+        let expected = vec![("mod_a", vec!["DEFAULT_LEVEL"]), ("mod_c", vec!["Label"]), ("mod_d", vec!["Flag"])];
+        evs.push(json!({"ev": "uses", "case": ci, "module": "Mod-B",
+                        "expected": expected.iter().map(|(a, b)| json!({"m": a, "syms": b})).collect::<Vec<_>>(),
+                        "observed": observed.iter().map(|(a, b)| json!({"m": a, "syms": b})).collect::<Vec<_>>(),
+                        "asn": srcs.join("")}));
+    }
     // two revisions of one module: the same module reference, different headers, disjoint names (spec/Headers.tla).  The second
     // revision compiled alone and together with the first, in both orders: its bindings must be the same
     if ci % 4 == 0 {
